@@ -38,7 +38,8 @@ func provOf(t *Terminal, v Val) string {
 			}
 			return "unchecked-validate(" + provOf(t, x.Args[1]) + ")"
 		case strings.HasSuffix(name, "etreeutils.NSDetatch") && x.Idx == 0:
-			return "copy(" + provOf(t, x.Args[1]) + ")"
+			// a detached copy that carries the namespace declarations in scope at the element
+			return "nscopy(" + provOf(t, x.Args[1]) + ")"
 		case name == "(*etree.Element).Copy":
 			return "copy(" + provOf(t, x.Args[0]) + ")"
 		}
@@ -501,7 +502,7 @@ func checkAppend(c *Ctx, t *Terminal, fname, label string, obj Val, ae *Event, h
 		c.bad("C01-R2", fname, "decode target is fresh per assertion ["+label+"]", pos,
 			"the Assertion object decoded into ("+ap(aobj)+") is not allocated inside the handler invocation: it is shared by all iterations and encoding/xml merges successive assertions into it")
 	}
-	want := "verified(copy(desc(raw)))"
+	want := "verified(nscopy(desc(raw)))"
 	if src.Prov == want {
 		c.ok("C01-R2", fname, "appended assertion decoded from its own verified element ["+label+"]", pos, "decoded from "+src.Prov)
 	} else {
